@@ -47,6 +47,17 @@ PY_PROJECTS = {
     },
 }
 
+PY_PROJECTS["nested_fields"] = {
+    "n.py": "class Inner:\n    def __init__(self):\n        self.own = 0\nclass Outer:\n    def __init__(self):\n        self.inner = Inner()\n        self.label = 'o'\n"
+            "def fill(target):\n    part = target.inner\n    part.alpha = 1\n    part.beta = 2\n    part.gamma = 3\n    part.delta = 4\n    return part\n"
+            "def fill2(target, extra):\n    sub = target.inner\n    sub.zeta = extra\n    sub.eta = extra\n    sub.theta = extra\n"
+            "o = Outer()\no.inner.mine = 5\nfill(o)\nfill2(o, 7)\nr = o.inner.alpha + o.inner.zeta\np = Outer()\np.inner.other = 1\nfill(p)\n",
+}
+PY_PROJECTS["default_params"] = {
+    "d.py": "def f(alpha=1, beta='x', gamma=None, delta=4):\n    return alpha\ndef g(one, two=2, three=3, four=4, *, key='k', word='w'):\n    return one\n"
+            "r = f()\ns = f(2)\nt = f(beta='y')\nu = g(1)\nv = g(1, 5, key='z')\n",
+}
+
 JS_PROJECT = {
     "m.js": "function mk(v) { return { val: v, get: function () { return this.val; } }; }\nvar a = mk(1);\nvar b = mk(2);\n"
             "var t = a.get() + b.get();\nvar arr = [a, b];\nfor (var i = 0; i < arr.length; i++) { t = t + arr[i].val; }\nfunction twice(f, x) { return f(f(x)); }\n"
